@@ -166,8 +166,10 @@ def _compare_buildable(x: Buildable, y: Buildable, check_dag: bool = False):
             registry=_defaults_aware_traverser_registry,
         )
     )
-    x_paths = sorted([elt[1] for elt in x_elements])
-    y_paths = sorted([elt[1] for elt in y_elements])
+    # Sort by the string form of the paths: dict keys of different types (e.g.
+    # `{1: ..., 'a': ...}`) can not be compared with each other.
+    x_paths = sorted([elt[1] for elt in x_elements], key=daglish.path_str)
+    y_paths = sorted([elt[1] for elt in y_elements], key=daglish.path_str)
 
     if len(x_paths) != len(y_paths):
       return False
